@@ -357,9 +357,11 @@ class _RootFinder(torch.autograd.Function):
                 with ctx.fcn.useobjparams(objparams_copy):
                     yfcn = fcn(yout, *params_copy)
 
-            grad_tensor_params = torch.autograd.grad(yfcn, tensor_params_copy, grad_outputs=gyfcn,
-                                                     create_graph=torch.is_grad_enabled(),
-                                                     allow_unused=True)
+            grad_tensor_params = ()  # e.g. if only the initial guess requires grad
+            if len(tensor_params_copy) > 0:
+                grad_tensor_params = torch.autograd.grad(yfcn, tensor_params_copy, grad_outputs=gyfcn,
+                                                         create_graph=torch.is_grad_enabled(),
+                                                         allow_unused=True)
             grad_nontensor_params = [None for _ in range(param_sep.nnontensors())]
             grad_params = param_sep.reconstruct_params(grad_tensor_params, grad_nontensor_params)
 
